@@ -748,6 +748,9 @@ func (e *Engine) assert(c *smt.Term, msg, site string) {
 	case smt.Unsat:
 		e.rep.ObligationsUnsat++
 	case smt.Sat:
+		if m2 := e.niceModel(e.ctx.Not(c)); m2 != nil {
+			m = m2
+		}
 		e.addFindingModel("assert", msg, site, m)
 		if len(e.rep.Findings) > 40 {
 			panic(abortPath{kind: "stop"})
@@ -766,12 +769,37 @@ func (e *Engine) assert(c *smt.Term, msg, site string) {
 	e.pc = append(e.pc, c)
 }
 
+// niceModel asks for a counterexample whose byte inputs are printable ASCII in
+// ['-','z'] (no NUL / control bytes), which replays more meaningfully against the real
+// file system and real parsers. Returns nil when no such model exists (or on unknown).
+func (e *Engine) niceModel(extra *smt.Term) map[string]uint64 {
+	c := extra
+	n := 0
+	for i, nd := range e.nondets {
+		if nd.Kind == "u8" && !nd.Env {
+			t := e.ndTerms[i]
+			c = e.ctx.And(c, e.ctx.And(e.ctx.Cmp(smt.OpBVUle, e.ctx.BV(0x2d, 8), t), e.ctx.Cmp(smt.OpBVUle, t, e.ctx.BV(0x7a, 8))))
+			n++
+		}
+	}
+	if n == 0 {
+		return nil
+	}
+	r, m := e.sol.CheckT(e.pc, c, e.ndTerms, true, 5000)
+	if r == smt.Sat {
+		return m
+	}
+	return nil
+}
+
 func (e *Engine) addFinding(kind, msg string, stack []string) {
 	// need a model of the current pc
 	r, m := e.sol.Check(e.pc, e.ctx.True, e.ndTerms, true)
 	if r != smt.Sat {
 		// fall back to an empty model (all zero)
 		m = map[string]uint64{}
+	} else if m2 := e.niceModel(e.ctx.True); m2 != nil {
+		m = m2
 	}
 	f := Finding{Kind: kind, Msg: msg, Pos: e.curPosStr(), Decisions: append([]int{}, e.taken...), Stack: stack}
 	f.Model = e.modelVals(m)
